@@ -1,11 +1,529 @@
 package main
 
+import (
+	"bufio"
+	"bytes"
+	"encoding/json"
+	"fmt"
+	"os"
+	"os/exec"
+	"path/filepath"
+	"sort"
+	"strconv"
+	"strings"
+	"time"
+
+	"verif/engine/gosym"
+)
+
 type Env struct {
 	Repo, Verif, Tier, Solver, Dump, Only string
 	Workers, TimeoutMs                    int
 	NoReplay                              bool
 }
 
-func (e *Env) ReplayFile(path string) int  { return 2 }
-func (e *Env) Selftest() int               { return 2 }
-func (e *Env) RunProperty(id string) int   { return 2 }
+// Inst is one harness instance: a harness function with concrete structural parameters (the bound).
+type Inst struct {
+	Pkg      string // package path relative to the module
+	Fn       string
+	Params   map[string]string
+	MapOrder bool
+}
+
+type PropSpec struct {
+	ID          string
+	Pkgs        []string // packages to load (relative, "./x/...")
+	Quick       []Inst
+	Thorough    []Inst
+	Bounds      map[string]string // tier -> text
+	Outside     []string
+	Assumptions []string
+	Stubs       []string
+}
+
+func pm(kv ...string) map[string]string {
+	m := map[string]string{}
+	for i := 0; i+1 < len(kv); i += 2 {
+		m[kv[i]] = kv[i+1]
+	}
+	return m
+}
+
+type KnownFinding struct {
+	Property string            `json:"property"`
+	ID       string            `json:"id"`
+	Harness  string            `json:"harness"`
+	MsgHas   string            `json:"msg_contains"`
+	Params   map[string]string `json:"params,omitempty"`
+	Model    map[string]string `json:"model_equals,omitempty"`
+	What     string            `json:"what"`
+	Status   string            `json:"status"` // "open" | "fixed: ..."
+}
+
+type cexFile struct {
+	Property string            `json:"property"`
+	Harness  string            `json:"harness"`
+	Pkg      string            `json:"pkg"`
+	Params   map[string]string `json:"params"`
+	Model    map[string]string `json:"model"`
+	Msg      string            `json:"msg"`
+	Kind     string            `json:"kind"`
+	Where    string            `json:"where"`
+	Expect   map[string]string `json:"expect_observed,omitempty"`
+}
+
+type replayResult struct {
+	File     string            `json:"file"`
+	Harness  string            `json:"harness"`
+	Outcome  string            `json:"outcome"`
+	Observed map[string]string `json:"observed"`
+}
+
+func (e *Env) loadKnown() []KnownFinding {
+	var k struct {
+		Findings []KnownFinding `json:"findings"`
+	}
+	b, err := os.ReadFile(filepath.Join(e.Verif, "known_findings.json"))
+	if err != nil {
+		return nil
+	}
+	if err := json.Unmarshal(b, &k); err != nil {
+		fmt.Fprintln(os.Stderr, "known_findings.json:", err)
+		os.Exit(2)
+	}
+	return k.Findings
+}
+
+func matchKnown(ks []KnownFinding, prop string, c *cexFile) *KnownFinding {
+	for i := range ks {
+		k := &ks[i]
+		if k.Property != prop || k.Status != "open" || k.Harness != c.Harness {
+			continue
+		}
+		if k.MsgHas != "" && !strings.Contains(c.Msg, k.MsgHas) {
+			continue
+		}
+		ok := true
+		for p, v := range k.Params {
+			if c.Params[p] != v {
+				ok = false
+			}
+		}
+		for p, v := range k.Model {
+			if c.Model[p] != v {
+				ok = false
+			}
+		}
+		if ok {
+			return k
+		}
+	}
+	return nil
+}
+
+// nativeReplay compiles the harnesses of pkg natively (go test -overlay) and runs the listed vector files.
+func (e *Env) nativeReplay(pkg string, files []string, outDir string) (map[string]*replayResult, string, error) {
+	res := map[string]*replayResult{}
+	if len(files) == 0 {
+		return res, "", nil
+	}
+	_, paths, err := gosym.Overlay(e.Repo, filepath.Join(e.Verif, "harness"))
+	if err != nil {
+		return nil, "", err
+	}
+	repl := map[string]string{}
+	var fns []string
+	pkgDir := filepath.Join(e.Repo, pkg)
+	pkgName := ""
+	for virt, real := range paths {
+		repl[virt] = real
+		if filepath.Dir(virt) == pkgDir && !strings.HasSuffix(virt, "_test.go") {
+			src, _ := os.ReadFile(real)
+			for _, line := range strings.Split(string(src), "\n") {
+				if strings.HasPrefix(line, "package ") && pkgName == "" {
+					pkgName = strings.TrimSpace(strings.TrimPrefix(line, "package "))
+				}
+				if strings.HasPrefix(line, "func Verif") {
+					name := line[len("func "):strings.Index(line, "(")]
+					fns = append(fns, name)
+				}
+			}
+		}
+	}
+	if pkgName == "" {
+		return nil, "", fmt.Errorf("no harness files for package %s", pkg)
+	}
+	sort.Strings(fns)
+	var tb strings.Builder
+	fmt.Fprintf(&tb, "package %s\n\nimport (\n\t\"testing\"\n\n\tzz \"%s/zzverif\"\n)\n\nfunc TestVerifReplay(t *testing.T) {\n\tzz.ReplayMain(map[string]func(){\n", pkgName, gosym.HaqqMod)
+	for _, f := range fns {
+		fmt.Fprintf(&tb, "\t\t%q: %s,\n", f, f)
+	}
+	tb.WriteString("\t})\n}\n")
+	os.MkdirAll(outDir, 0o755)
+	testFile := filepath.Join(outDir, "zz_verif_replay_test.go")
+	os.WriteFile(testFile, []byte(tb.String()), 0o644)
+	repl[filepath.Join(pkgDir, "zz_verif_replay_test.go")] = testFile
+	ovb, _ := json.Marshal(map[string]interface{}{"Replace": repl})
+	ovFile := filepath.Join(outDir, "overlay.json")
+	os.WriteFile(ovFile, ovb, 0o644)
+	listFile := filepath.Join(outDir, "replay.list")
+	os.WriteFile(listFile, []byte(strings.Join(files, "\n")+"\n"), 0o644)
+	cmd := exec.Command("go", "test", "-vet=off", "-count=1", "-overlay", ovFile, "-run", "^TestVerifReplay$", "-timeout", "20m", "-v", "./"+pkg)
+	cmd.Dir = e.Repo
+	cmd.Env = append(os.Environ(), "VERIF_REPLAY_LIST="+listFile, "GOFLAGS=-mod=mod", "GOPROXY=off", "GOSUMDB=off", "GOTOOLCHAIN=local")
+	var out bytes.Buffer
+	cmd.Stdout = &out
+	cmd.Stderr = &out
+	runErr := cmd.Run()
+	sc := bufio.NewScanner(bytes.NewReader(out.Bytes()))
+	sc.Buffer(make([]byte, 1<<20), 1<<24)
+	for sc.Scan() {
+		l := sc.Text()
+		if i := strings.Index(l, "REPLAY-RESULT "); i >= 0 {
+			var r replayResult
+			if json.Unmarshal([]byte(l[i+len("REPLAY-RESULT "):]), &r) == nil {
+				res[r.File] = &r
+			}
+		}
+	}
+	if len(res) == 0 && runErr != nil {
+		return res, out.String(), fmt.Errorf("native replay build/run failed: %v", runErr)
+	}
+	return res, out.String(), nil
+}
+
+type instResult struct {
+	Inst Inst
+	Run  *gosym.Run
+}
+
+func instName(i Inst) string {
+	ks := make([]string, 0, len(i.Params))
+	for k := range i.Params {
+		ks = append(ks, k)
+	}
+	sort.Strings(ks)
+	var parts []string
+	for _, k := range ks {
+		parts = append(parts, k+"="+i.Params[k])
+	}
+	return i.Fn + "[" + strings.Join(parts, ",") + "]"
+}
+
+func (e *Env) RunProperty(id string) int {
+	t0 := time.Now()
+	spec, ok := Specs()[id]
+	if !ok {
+		fmt.Fprintf(os.Stderr, "no check registered for %s\n", id)
+		return 2
+	}
+	insts := spec.Quick
+	if e.Tier == "thorough" {
+		insts = spec.Thorough
+	}
+	seed := 0
+	if s := os.Getenv("VERIF_SEED"); s != "" {
+		seed, _ = strconv.Atoi(s)
+	}
+	outDir := filepath.Join(e.Verif, "out", id)
+	os.RemoveAll(outDir)
+	os.MkdirAll(outDir, 0o755)
+	P, err := gosym.Load(e.Repo, filepath.Join(e.Verif, "harness"), spec.Pkgs)
+	if err != nil {
+		fmt.Fprintln(os.Stderr, "LOAD-ERROR:", err)
+		e.writeEvidence(id, spec, nil, seed, time.Since(t0), 0, 0, []string{"load error: " + err.Error()}, nil, P)
+		return 2
+	}
+	fmt.Printf("[%s] loaded %d packages in %.1fs (tier %s)\n", id, len(P.Pkgs), P.LoadTime.Seconds(), e.Tier)
+	known := e.loadKnown()
+	var results []instResult
+	problems := []string{}
+	for _, in := range insts {
+		if e.Only != "" && !strings.Contains(instName(in), e.Only) {
+			continue
+		}
+		r, err := gosym.NewRun(P, gosym.HaqqMod+"/"+in.Pkg, in.Fn, in.Params)
+		if err != nil {
+			problems = append(problems, err.Error())
+			continue
+		}
+		r.Workers, r.SolverKind, r.TimeoutMs, r.DumpDir, r.MapOrder = e.Workers, e.Solver, e.TimeoutMs, e.Dump, in.MapOrder
+		r.TraceBudget = 2
+		r.Explore()
+		fmt.Printf("[%s] %s: paths=%d obligations=%d discharged=%d inconclusive=%d cex=%d reach=%d wall=%.1fs\n", id, instName(in), r.Paths, r.Obligations, r.Discharged, len(r.Inconclusive), len(r.Violations), len(r.Reach), r.Wall.Seconds())
+		for _, er := range r.Errors {
+			problems = append(problems, instName(in)+": "+er)
+		}
+		for _, ic := range r.Inconclusive {
+			problems = append(problems, instName(in)+": inconclusive: "+ic)
+		}
+		if r.Bounded() {
+			problems = append(problems, instName(in)+": BOUND-EXCEEDED (step/path budget)")
+		}
+		if _, ok := r.Reach["end"]; !ok && len(r.Violations) == 0 {
+			problems = append(problems, instName(in)+": VACUOUS: no path reaches the end of the harness")
+		}
+		results = append(results, instResult{in, r})
+	}
+	// ---- counterexamples and validation traces -> native replay
+	type pending struct {
+		file string
+		cex  *cexFile
+		kind string // "cex" | "trace"
+	}
+	byPkg := map[string][]pending{}
+	n := 0
+	for _, ir := range results {
+		groups := map[string]int{}
+		for _, v := range ir.Run.Violations {
+			g := v.Msg
+			groups[g]++
+			if groups[g] > 2 {
+				continue
+			}
+			n++
+			c := &cexFile{Property: id, Harness: v.Harness, Pkg: ir.Inst.Pkg, Params: v.Params, Model: v.Model, Msg: v.Msg, Kind: v.Kind, Where: v.Where}
+			f := filepath.Join(outDir, fmt.Sprintf("cex-%d.json", n))
+			b, _ := json.MarshalIndent(c, "", " ")
+			os.WriteFile(f, b, 0o644)
+			byPkg[ir.Inst.Pkg] = append(byPkg[ir.Inst.Pkg], pending{f, c, "cex"})
+		}
+		for _, tr := range ir.Run.Traces {
+			n++
+			c := &cexFile{Property: id, Harness: ir.Inst.Fn, Pkg: ir.Inst.Pkg, Params: ir.Inst.Params, Model: tr.Model, Kind: "trace", Expect: tr.Obs}
+			f := filepath.Join(outDir, fmt.Sprintf("trace-%d.json", n))
+			b, _ := json.MarshalIndent(c, "", " ")
+			os.WriteFile(f, b, 0o644)
+			byPkg[ir.Inst.Pkg] = append(byPkg[ir.Inst.Pkg], pending{f, c, "trace"})
+		}
+	}
+	violations, knownHits, tracesOK := 0, 0, 0
+	var vioLines []string
+	if !e.NoReplay {
+		pkgs := make([]string, 0, len(byPkg))
+		for p := range byPkg {
+			pkgs = append(pkgs, p)
+		}
+		sort.Strings(pkgs)
+		for _, pkg := range pkgs {
+			var files []string
+			for _, p := range byPkg[pkg] {
+				files = append(files, p.file)
+			}
+			res, log, err := e.nativeReplay(pkg, files, filepath.Join(outDir, "native-"+strings.ReplaceAll(pkg, "/", "_")))
+			if err != nil {
+				problems = append(problems, fmt.Sprintf("native replay of %s failed: %v\n%s", pkg, err, tail(log, 30)))
+				continue
+			}
+			for _, p := range byPkg[pkg] {
+				r := res[p.file]
+				if r == nil {
+					problems = append(problems, "no native result for "+p.file+"\n"+tail(log, 15))
+					continue
+				}
+				switch p.kind {
+				case "trace":
+					if r.Outcome != "ok" {
+						problems = append(problems, fmt.Sprintf("ENCODING-MISMATCH: validation trace %s passes in the encoding but natively: %s", p.file, r.Outcome))
+						continue
+					}
+					mism := ""
+					for k, v := range p.cex.Expect {
+						nv, ok := r.Observed[k]
+						if !ok && strings.Contains(k, ".") {
+							nv = "0"
+						}
+						if nv != v {
+							mism += fmt.Sprintf(" %s: encoding=%s native=%s;", k, v, nv)
+						}
+					}
+					if mism != "" {
+						problems = append(problems, "ENCODING-MISMATCH on trace "+p.file+":"+mism)
+					} else {
+						tracesOK++
+					}
+				case "cex":
+					want := "assert:" + p.cex.Msg
+					reproduced := r.Outcome == want || (p.cex.Kind == "panic" && strings.HasPrefix(r.Outcome, "panic:"))
+					if !reproduced {
+						problems = append(problems, fmt.Sprintf("ENCODING-MISMATCH: counterexample %s (%s) does not reproduce natively (native outcome: %s)", p.file, p.cex.Msg, r.Outcome))
+						continue
+					}
+					if k := matchKnown(known, id, p.cex); k != nil {
+						knownHits++
+						line := fmt.Sprintf("KNOWN-FINDING: property=%s %s: %s", id, k.ID, k.What)
+						if !contains(vioLines, line) {
+							vioLines = append(vioLines, line)
+						}
+						continue
+					}
+					violations++
+					vioLines = append(vioLines, fmt.Sprintf("VIOLATION property=%s replay=%s", id, p.file))
+					fmt.Printf("  counterexample (%s, reproduced natively): %s: %s model=%v\n", p.cex.Harness, p.cex.Kind, p.cex.Msg, p.cex.Model)
+				}
+			}
+		}
+	} else {
+		for _, ps := range byPkg {
+			for _, p := range ps {
+				if p.kind == "cex" {
+					violations++
+					fmt.Printf("  counterexample (not replayed): %s %s %v\n", p.cex.Harness, p.cex.Msg, p.cex.Model)
+				}
+			}
+		}
+	}
+	for _, l := range vioLines {
+		fmt.Println(l)
+	}
+	for _, p := range problems {
+		fmt.Println("PROBLEM:", p)
+	}
+	e.writeEvidence(id, spec, results, seed, time.Since(t0), violations, tracesOK, problems, vioLines, P)
+	switch {
+	case violations > 0:
+		return 1
+	case len(problems) > 0:
+		fmt.Printf("[%s] INCONCLUSIVE (%d problems) in %.1fs\n", id, len(problems), time.Since(t0).Seconds())
+		return 2
+	}
+	fmt.Printf("[%s] OK: property held on everything explored (%.1fs)\n", id, time.Since(t0).Seconds())
+	return 0
+}
+
+func contains(xs []string, s string) bool {
+	for _, x := range xs {
+		if x == s {
+			return true
+		}
+	}
+	return false
+}
+
+func tail(s string, n int) string {
+	ls := strings.Split(strings.TrimRight(s, "\n"), "\n")
+	if len(ls) > n {
+		ls = ls[len(ls)-n:]
+	}
+	return strings.Join(ls, "\n")
+}
+
+func (e *Env) writeEvidence(id string, spec *PropSpec, results []instResult, seed int, wall time.Duration, violations, tracesOK int, problems, vioLines []string, P *gosym.Program) {
+	paths, steps, obl, dis, triv, reach := 0, int64(0), 0, 0, 0, 0
+	queries := map[string]int{}
+	solverTime := map[string]float64{}
+	funcs := map[string]string{}
+	var samples []interface{}
+	var instSumm []interface{}
+	for _, ir := range results {
+		r := ir.Run
+		paths += r.Paths
+		steps += r.Steps
+		obl += r.Obligations
+		dis += r.Discharged
+		triv += r.Trivial
+		reach += len(r.Reach)
+		for k, v := range r.Queries {
+			queries[k] += v
+		}
+		for k, v := range r.SolverTime {
+			solverTime[k] += v.Seconds()
+		}
+		for k, v := range r.Funcs {
+			funcs[k] = v
+		}
+		if len(samples) < 12 {
+			for _, tag := range r.ReachOrder {
+				samples = append(samples, map[string]interface{}{"harness": instName(ir.Inst), "kind": "reach-witness", "tag": tag, "inputs": r.Reach[tag]})
+				break
+			}
+			if len(r.DischargedSamples) > 0 {
+				samples = append(samples, map[string]interface{}{"harness": instName(ir.Inst), "kind": "obligation-discharged", "what": r.DischargedSamples[0]})
+			}
+		}
+		instSumm = append(instSumm, map[string]interface{}{"harness": instName(ir.Inst), "paths": r.Paths, "obligations": r.Obligations, "discharged": r.Discharged,
+			"inconclusive": len(r.Inconclusive), "counterexamples": len(r.Violations), "reach_witnesses": len(r.Reach), "wall_s": round2(r.Wall.Seconds()), "path_ends": r.PathEnds})
+	}
+	if len(samples) == 0 {
+		samples = append(samples, map[string]interface{}{"note": "no harness completed", "problems": problems})
+	}
+	var fl []string
+	for k, v := range funcs {
+		fl = append(fl, k+"#"+v)
+	}
+	sort.Strings(fl)
+	var overrides []string
+	if P != nil {
+		overrides = P.OverrideList
+	}
+	cov := map[string]interface{}{
+		"states":                        max(paths, 1),
+		"transitions":                   max64(steps, 1),
+		"traces_validated_against_impl": tracesOK,
+		"samples":                       samples,
+		"obligations":                   obl,
+		"discharged":                    dis,
+		"discharged_by_constant_folding": triv,
+		"inconclusive_or_problems":      problems,
+		"reach_witnesses":               reach,
+		"functions_encoded":             fl,
+		"bounds":                        spec.Bounds[e.Tier],
+		"outside_bounds":                spec.Outside,
+		"solver_queries":                queries,
+		"solver_time_s":                 solverTime,
+		"overrides":                     overrides,
+		"stubs":                         spec.Stubs,
+		"instances":                     instSumm,
+		"report_lines":                  vioLines,
+		"explanation":                   "states = feasible paths of the real code explored by the SSA symbolic executor; transitions = SSA instructions interpreted; every obligation is an SMT query pc AND NOT(assertion) answered unsat; traces_validated = solver-chosen inputs replayed through the natively compiled real code with identical observed outputs",
+	}
+	ev := map[string]interface{}{
+		"property_id": id, "tier": e.Tier, "seed": seed, "level": "model_checking", "coverage": cov,
+		"assumptions": spec.Assumptions, "wall_s": round2(wall.Seconds()), "violations": violations,
+	}
+	b, _ := json.MarshalIndent(ev, "", " ")
+	os.MkdirAll(filepath.Join(e.Verif, "evidence"), 0o755)
+	os.WriteFile(filepath.Join(e.Verif, "evidence", id+".json"), b, 0o644)
+}
+
+func round2(f float64) float64 { return float64(int(f*100)) / 100 }
+func max64(a, b int64) int64 {
+	if a > b {
+		return a
+	}
+	return b
+}
+
+// ReplayFile replays one counterexample file natively and prints the outcome.
+func (e *Env) ReplayFile(path string) int {
+	b, err := os.ReadFile(path)
+	if err != nil {
+		fmt.Fprintln(os.Stderr, err)
+		return 2
+	}
+	var c cexFile
+	if err := json.Unmarshal(b, &c); err != nil {
+		fmt.Fprintln(os.Stderr, err)
+		return 2
+	}
+	abs, _ := filepath.Abs(path)
+	res, log, err := e.nativeReplay(c.Pkg, []string{abs}, filepath.Join(e.Verif, "out", "replay"))
+	if err != nil {
+		fmt.Println(log)
+		fmt.Fprintln(os.Stderr, err)
+		return 2
+	}
+	r := res[abs]
+	if r == nil {
+		fmt.Println(tail(log, 40))
+		return 2
+	}
+	fmt.Printf("harness %s native outcome: %s (expected %s: %s)\n", r.Harness, r.Outcome, c.Kind, c.Msg)
+	if r.Outcome == "ok" || r.Outcome == "assume-false" {
+		return 0
+	}
+	return 1
+}
+
+func (e *Env) Selftest() int { return selftest(e) }
